@@ -439,6 +439,19 @@ func (r *framesRule) checkCompleteErr(e *Engine, st *State, fc *FrameCtx, in ssa
 		e.Report(st, in.Pos(), "dispatch-fn/obs/complete-error", "cannot decide what error OnHandlerComplete receives (not a local cell)")
 		return
 	}
+	// a deferred call's arguments are evaluated when the defer statement runs: the load of
+	// the error cell must not precede the assignment made on the recovered branch
+	if d, isDefer := in.(*ssa.Defer); isDefer {
+		for _, sto := range e.cells.storeIns[a] {
+			if k, ok := sto.Val.(*ssa.Const); ok && k.Value == nil {
+				continue
+			}
+			if sto.Parent() != d.Parent() || !reaches(sto, d) {
+				e.Report(st, in.Pos(), "dispatch-fn/obs/complete-error", "OnHandlerComplete is deferred with the error variable as an argument: the argument is evaluated when the defer statement runs, before the recovered panic is recorded, so a panicking invocation is reported with a nil error")
+				return
+			}
+		}
+	}
 	// every store into the cell must be a never-nil error made inside the recovered branch
 	for _, sto := range e.cells.storeIns[a] {
 		if !e.neverNil(nil, sto.Val, 0) {
